@@ -136,6 +136,25 @@ def property_obligations(pid):
     return {"theorems": ths, "log": log, "compiled": rc == 0}
 
 
+def coqchk(pid, timeout=1500):
+    """independent checker over Properties_<pid>.vo and all its dependencies; reports the axioms of the whole context"""
+    with Lock("coq"):
+        try:
+            rc, o, e = sh("timeout %d coqchk -o -silent -Q . Cocls Cocls.Properties_%s" % (timeout, pid), cwd=COQ, timeout=timeout + 30)
+        except subprocess.TimeoutExpired:
+            return {"ok": False, "axioms": [], "log": "coqchk timed out"}
+    log = o + e
+    m = re.search(r"\* Axioms:(.*?)\n\s*\n\* Constants/Inductives relying on type-in-type:(.*?)\n\s*\n\* Constants/Inductives relying on unsafe \(co\)fixpoints:(.*?)\n\s*\n\* Inductives whose positivity is assumed:(.*?)\n", log, re.S)
+    if rc != 0 or not m:
+        return {"ok": False, "axioms": [], "log": log[-3000:]}
+    def items(t):
+        t = t.strip()
+        return [] if t == "<none>" else [x.strip() for x in t.split("\n") if x.strip()]
+    ax, tit, unsafe, pos = (items(m.group(i)) for i in (1, 2, 3, 4))
+    ok = all(a.split(".")[-1] in ALLOWED_AXIOMS for a in ax) and not tit and not unsafe and not pos
+    return {"ok": ok, "axioms": ax, "type_in_type": tit, "unsafe_fixpoints": unsafe, "assumed_positive": pos, "log": "" if ok else log[-3000:]}
+
+
 # ------------------------------------------------------------------ modelrun
 def build_modelrun():
     with Lock("ocaml"):
@@ -362,6 +381,7 @@ def known_match(pid, signature):
 # ------------------------------------------------------------------ evidence
 def write_evidence(pid, tier, seed, coverage, assumptions, wall, violations):
     os.makedirs(EVID, exist_ok=True)
+    coverage["library_under_test"] = {"path": REPO, "src_sha256": repo_hash().hexdigest()[:16]}
     ev = {"property_id": pid, "tier": tier, "seed": int(seed), "level": "proof", "coverage": coverage,
           "assumptions": assumptions, "wall_s": round(wall, 2), "violations": int(violations)}
     tmp = os.path.join(EVID, pid + ".json.tmp")
